@@ -365,7 +365,7 @@ func newHist(fd, uSpec, bSpec string) *hist {
 		if err != nil {
 			panic("NewIdeal: " + err.Error())
 		}
-		qr, err := h.ur[0].Quotient(id)
+		qr, err := h.uQuotientTwice(h.ur[0], h.ur[0], id)
 		if err != nil {
 			panic("Quotient: " + err.Error())
 		}
@@ -380,7 +380,7 @@ func newHist(fd, uSpec, bSpec string) *hist {
 		if err != nil {
 			panic("NewIdeal: " + err.Error())
 		}
-		qr, err := h.ur[0].Quotient(id)
+		qr, err := h.uQuotientTwice(h.ur[0], h.ur[0], id)
 		if err != nil {
 			panic("Quotient: " + err.Error())
 		}
@@ -425,6 +425,31 @@ func newHist(fd, uSpec, bSpec string) *hist {
 		}
 	}
 	return h
+}
+
+// uQuotientTwice calls r.Quotient(id) and, when that succeeds, calls it a second time with the SAME ideal object
+// (result discarded) and then looks at the ideal: Quotient is a value-returning operation (C16), so its argument must
+// be unchanged — same generator, still an object of the ring `home` it was created in — and the first quotient ring
+// must not notice the second call. (Round 9, C16-R9b: Ideal.Copy sharing the generator that Quotient re-labels.)
+func (h *hist) uQuotientTwice(r, home *univariate.QuotientRing, id *univariate.Ideal) (*univariate.QuotientRing, error) {
+	before := h.showU(id.Generator())
+	qr, err := r.Quotient(id)
+	if err != nil {
+		return qr, err
+	}
+	if _, err2 := r.Quotient(id); err2 != nil {
+		panic("CLOBBERED: a second Quotient with the same ideal object fails: " + kindOf(err2))
+	}
+	if after := h.showU(id.Generator()); after != before {
+		panic("CLOBBERED: Quotient changed the generator of its ideal argument: " + before + " -> " + after)
+	}
+	if s := id.Generator().Plus(home.Zero()); s.Err() != nil {
+		panic("CLOBBERED: after Quotient the generator of the ideal argument no longer belongs to its ring: " + kindOf(s.Err()))
+	}
+	if one := qr.One(); one.Times(one).Err() != nil {
+		panic("CLOBBERED: the first quotient ring is disturbed by a second Quotient with the same ideal object")
+	}
+	return qr, nil
 }
 
 func ret(isRecv bool, s string) string {
@@ -974,7 +999,7 @@ func (h *hist) step(line string) (out string) {
 		if err != nil {
 			return "err-ideal " + kindOf(err)
 		}
-		if _, err := h.ur[k].Quotient(id); err != nil {
+		if _, err := h.uQuotientTwice(h.ur[k], h.ur[j], id); err != nil {
 			return "err " + kindOf(err)
 		}
 		return "ok"
